@@ -1,5 +1,6 @@
 SPECIFICATION Spec
-CONSTANTS MaxSecs = 3 MaxOpts = 2 MaxMem = 2 MaxTop = 3 Mode = "gen"
+CONSTANTS MaxSecs = 3 MaxOpts = 2 MaxMem = 2 MaxTop = 3 MaxDocs = 2 MaxSteps = 3 Mode = "gen"
 VIEW SkelQ
 ACTION_CONSTRAINT Emit
+PROPERTIES RefusedFrame BindExact GSetFrame FreshDoc
 CHECK_DEADLOCK FALSE
